@@ -179,6 +179,16 @@ func (c *cand) sp(op wire.OutPoint) spend {
 	return spend{op: op, c: c.p.utxo[op], seq: wire.MaxTxInSequenceNum}
 }
 
+// cbAt is output 0 (OP_TRUE) of the coinbase at height h on the candidate's own path.
+func (c *cand) cbAt(h int32) wire.OutPoint {
+	for op, cn := range c.p.utxo {
+		if cn.height == h && cn.coinbase && op.Index == 0 {
+			return op
+		}
+	}
+	return wire.OutPoint{}
+}
+
 // pay spends the given inputs into one OP_TRUE output, leaving `fee`.
 func (c *cand) pay(version int32, lockTime uint32, ins ...spend) *wire.MsgTx {
 	total := int64(0)
@@ -378,7 +388,6 @@ var mutators = []mutator{
 	// block version 1..4 against the BIP34/66/65 heights
 	{"version", []int64{1, 2, 3, 4}, always, func(c *cand, a int64) {
 		c.version = int32(a)
-		c.mode = "V" // version<2 also switches the BIP34 height rule off, <3/<4 are only gates
 	}},
 	// BIP34 height field: off by one, non-minimal, missing
 	{"bip34", []int64{1, -1, 1000, 2000}, always, func(c *cand, a int64) {
@@ -424,7 +433,7 @@ var mutators = []mutator{
 	// coinbase maturity: exactly mature (ok) / one block short
 	{"maturity", []int64{0, 1}, always, func(c *cand, a int64) {
 		h := c.height - c.bs.v.maturity + int32(a)
-		c.txs = append(c.txs, c.pay(1, 0, c.sp(c.bs.cbOp(h, kTrue))))
+		c.txs = append(c.txs, c.pay(1, 0, c.sp(c.cbAt(h))))
 	}},
 	// output value: MaxSatoshi+1, negative; sum of outputs > MaxSatoshi
 	{"outvalue", []int64{btcutil.MaxSatoshi + 1, -1, 1}, always, func(c *cand, a int64) {
@@ -533,6 +542,13 @@ var mutators = []mutator{
 	// witness commitment: missing although witness data present / wrong / bad nonce / present without witness txs
 	{"commit", []int64{0, 1, 2, 3, 4}, segOn, func(c *cand, a int64) {
 		c.commit = []string{"none", "mismatch", "badnonce", "force", "twononce"}[a]
+	}},
+	// BIP16 switch time: a bad P2SH redeem script in a block timed one second before / exactly at the switch
+	{"bip16time", []int64{-1, 0}, func(v variant, h int32) bool { return v.early }, func(c *cand, a int64) {
+		c.time = bip16Switch + a
+		s := c.sp(c.bs.cbOp(2, kP2SH))
+		s.bad = "sig"
+		c.txs = append(c.txs, c.pay(1, 0, s))
 	}},
 	// witness data before segwit is active (nothing can commit to it) / the same output spent without witness
 	{"prewit", []int64{0, 1}, segOff, func(c *cand, a int64) {
